@@ -24,6 +24,7 @@ type histSession struct {
 	Steps     []histStep `json:"steps"`
 	Submit    bool       `json:"submit"`
 	SizeFirst bool       `json:"size_first"` // --history-size before --history on the command line
+	SizeEnv   bool       `json:"size_env,omitempty"` // --history-size comes from $FZF_DEFAULT_OPTS, --history from the command line
 }
 
 type histPlan struct {
@@ -75,6 +76,7 @@ func genHistPlan(r *zsim.Rng) *histPlan {
 	ns := r.Range(1, 8)
 	for s := 0; s < ns; s++ {
 		ses := histSession{Submit: r.Chance(3, 4), SizeFirst: r.Chance(1, 3)}
+		ses.SizeEnv = !ses.SizeFirst && r.Chance(1, 5)
 		for k := r.Intn(14); k > 0; k-- {
 			st := histStep{Op: []int{0, 0, 1, 2, 0, 1, 2}[r.Intn(7)]}
 			if st.Op == 2 {
@@ -154,7 +156,19 @@ func runHist(c *runCtx) {
 		if ses.SizeFirst {
 			args = []string{"--history-size", strconv.Itoa(plan.Max), "--history", path}
 		}
-		opts, err := ParseOptions(false, args)
+		useDefaults := false
+		if ses.SizeEnv && !ses.SizeFirst {
+			// the limit is part of the user's defaults, the file is named by this invocation
+			useDefaults = true
+			args = []string{"--history", path}
+			os.Unsetenv("FZF_DEFAULT_OPTS_FILE")
+			os.Setenv("FZF_DEFAULT_OPTS", "--history-size="+strconv.Itoa(plan.Max))
+			c.count("probe.size_from_default_opts", 1)
+		}
+		opts, err := ParseOptions(useDefaults, args)
+		if useDefaults {
+			os.Unsetenv("FZF_DEFAULT_OPTS")
+		}
 		if err != nil || opts.History == nil {
 			c.violate("hist.open", "session %d: cannot open history: %v", si, err)
 			return
